@@ -195,3 +195,54 @@ def n_jobs(a):
     finally:
         sys.setswitchinterval(old)
     return out
+
+
+def python_threads(a):
+    """Separate estimator objects fitted concurrently in Python threads (one job per thread, each repeated): every fit must give
+    what the same job gives when run alone.  a = {'jobs': [{'name', 'm', 'opts'}, ...], 'repeat': R}.
+    Returns the sequential reference of every job and, per thread, the list of outputs (or the exception raised)."""
+    import sys
+    import threading
+    ref = []
+    for job in a['jobs']:
+        try:
+            ref.append({'ok': registry.run(job)})
+        except Exception as e:      # noqa
+            ref.append({'err': type(e).__name__})
+    outs = [[] for _ in a['jobs']]
+
+    def work(t):
+        for _ in range(a.get('repeat', 5)):
+            try:
+                outs[t].append({'ok': registry.run(a['jobs'][t])})
+            except Exception as e:  # noqa
+                outs[t].append({'err': '%s: %s' % (type(e).__name__, str(e)[:120])})
+    # another schedule of the same computations: the iterative solvers idle for a moment before returning from fit (class-level
+    # wrappers that call the original method and sleep; results are untouched), so that the other threads' solver calls complete
+    # between a solver call and the use of its results
+    import time
+    patched = []
+    if a.get('slow_solvers'):
+        from sknetwork.linalg import svd_solver, eig_solver
+        for cls in (svd_solver.LanczosSVD, eig_solver.LanczosEig):
+            orig = cls.fit
+
+            def slow(self, *args, __orig=orig, **kwargs):
+                r = __orig(self, *args, **kwargs)
+                time.sleep(0.003)
+                return r
+            patched.append((cls, orig))
+            cls.fit = slow
+    old = sys.getswitchinterval()
+    sys.setswitchinterval(1e-6)
+    try:
+        threads = [threading.Thread(target=work, args=(t,)) for t in range(len(a['jobs']))]
+        for th in threads:
+            th.start()
+        for th in threads:
+            th.join()
+    finally:
+        sys.setswitchinterval(old)
+        for cls, orig in patched:
+            cls.fit = orig
+    return {'ref': ref, 'threads': outs}
